@@ -31,6 +31,12 @@ mod dup {
         }
     }
     fn blocking(data: &'static [u8], mode: u8) -> String {
+        std::panic::catch_unwind(move || blocking_inner(data, mode)).unwrap_or_else(|_| "PANIC".to_string())
+    }
+    fn asynch(data: &'static [u8], mode: u8) -> String {
+        std::panic::catch_unwind(move || asynch_inner(data, mode)).unwrap_or_else(|_| "PANIC".to_string())
+    }
+    fn blocking_inner(data: &'static [u8], mode: u8) -> String {
         match IppParser::new(IppReader::new(Src::new(data, mode))).parse_parts() {
             Ok((h, a, r)) => {
                 let mut rest = Vec::new();
@@ -42,7 +48,7 @@ mod dup {
             Err(e) => err(&e),
         }
     }
-    fn asynch(data: &'static [u8], mode: u8) -> String {
+    fn asynch_inner(data: &'static [u8], mode: u8) -> String {
         let r = futures_executor::block_on(AsyncIppParser::new(AsyncIppReader::new(ASrc::new(data, mode))).parse_parts());
         match r {
             Ok((h, a, r)) => {
@@ -75,6 +81,9 @@ mod dup {
         for k in 0..=full.len() {
             inputs.push(full[..k].to_vec());
         }
+        // names / texts that are not valid UTF-8 (Latin-1, truncated sequences)
+        inputs.push([&hdr[..], &[0x04, 0x44, 0, 3, b'z', 0xe4, b'h', 0, 2, b'o', b'k', 0x41, 0, 2, 0xc3, b'x', 0, 3, b'G', b'r', 0xfc, 0x03]].concat());
+        inputs.push([&hdr[..], &[0x01, 0x35, 0, 2, 0xff, b'n', 0, 8, 0, 2, 0xe9, b'n', 0, 2, 0xc3, 0x28, 0x03, 1, 2]].concat());
         // malformed markers
         inputs.push([&hdr[..], &[0x04, 0x34, 0, 1, b'c', 0, 1, 9, 0x03]].concat());
         inputs.push([&hdr[..], &[0x04, 0x37, 0, 0, 0, 1, 9, 0x03]].concat());
